@@ -13,7 +13,9 @@ EXPLANATION = (
 DECIDED = ["R13a rollback runs to the end (loop-exit classification)",
            "R13b every mutation records an undo command (MUST over success paths)",
            "R13c pushed command and rollback arm are inverse (TABLE, MIR aggregates x HIR match arms)",
-           "R13d displaced alias bindings are recorded (DOM)"]
+           "R13d displaced alias bindings are recorded (DOM)",
+           "R13e nothing reachable from rollback records undo commands",
+           "R13f undo commands are recorded in the order of their mutations"]
 UNDECIDED = ["equality of the database state before the transaction and after rollback (needs execution)",
              "correct payload of each pushed command (old value vs new value)"]
 
